@@ -15,6 +15,8 @@ PENDING_REASON = 'no check registered yet: the Coq model and correspondence for 
 
 def main():
     checks, na = [], []
+    reg_path = os.path.join(here, 'registered.txt')
+    registered = set(open(reg_path).read().split()) if os.path.exists(reg_path) else set()
     for pid in ALL:
         path = os.path.join(here, 'sfv', 'props', pid.lower() + '.py')
         meta = None
@@ -27,7 +29,7 @@ def main():
             for node in tree.body:
                 if isinstance(node, ast.Assign) and any(getattr(t, 'id', None) == 'MANIFEST' for t in node.targets):
                     meta = ast.literal_eval(node.value)
-        if not meta or not meta.get('registered', True):
+        if not meta or pid not in registered:
             na.append({'property_id': pid, 'reason': (meta or {}).get('reason', PENDING_REASON)})
             continue
         checks.append({
